@@ -13,7 +13,7 @@ PROPERTY = 'C08'
 LEVEL = 'exploration'
 RULE = ('fixed corpus (stop in `started`, mid-chain, in a generator step, via SystemExit / KeyboardInterrupt, from a second thread, with '
         'exit codes None/0/3/"msg", events fired after stop() in the same handler and by `stopped` handlers, events queued before run(), '
-        'stop() on a non-running manager, 1-3 run/stop cycles) + seeded random programs of the same ingredients; non-trivial = >= 3 events '
+        'stop() on a non-running manager - idle between runs, and a registered child component stopped from a handler while its root runs -, 1-3 run/stop cycles) + seeded random programs of the same ingredients; non-trivial = >= 3 events '
         'still undispatched (queued or yet to be fired as a consequence) when stop() is called; distinct = hash of the program')
 ASSUMPTIONS = [
     'no generator task has more than two steps left when stop() happens (the loop\'s fade-out is bounded; longer coroutines are not "queued events")',
@@ -23,7 +23,7 @@ ASSUMPTIONS = [
 ]
 REQUIRED = ['stop_in_started', 'stop_mid_chain', 'stop_in_generator_step', 'stop_via_systemexit', 'stop_via_keyboardinterrupt',
             'stop_from_second_thread', 'exit_code_given', 'events_fired_after_stop', 'stopped_handler_fires', 'queued_before_run',
-            'second_cycle', 'stop_when_not_running']
+            'second_cycle', 'stop_when_not_running', 'stop_of_registered_child_while_root_runs']
 REQUIRED_OBLIGATIONS = ['STARTED_ONCE', 'STOPPED_ONCE', 'DRAINED', 'EXIT_CODE', 'RUN_ENDS', 'STOP_NOT_RUNNING_NOOP']
 WORKER_TIMEOUT = {'quick': 300, 'thorough': 1500}
 ENGINE = 'stepping-driver'
@@ -172,6 +172,13 @@ def run_case(case):
         if undisp or left_q or left_t:
             problems.append(('DRAINED', dict(detail0, not_dispatched_exactly_once=[[u, w.events[u]['name'], w.events[u]['dispatched']] for u in undisp][:8],
                                              queue_left=left_q, tasks_left=left_t)))
+        for e in seg:
+            if e[0] == 'CHILDSTOP':
+                counts['STOP_NOT_RUNNING_NOOP'] += 1
+                marks.add('stop_of_registered_child_while_root_runs')
+                if e[4] != e[5] or e[6] is not None:
+                    problems.append(('STOP_NOT_RUNNING_NOOP', dict(detail0, when='stop(%r) of a registered component from a handler while its root runs' % (e[3],),
+                                                                   root_running_queue_child_running_before=e[4], after=e[5], raised=e[6])))
         counts['EXIT_CODE'] += 1
         observed = raised.code if isinstance(raised, SystemExit) else ('EXC:' + repr(raised) if raised is not None else None)
         if observed != given:
@@ -201,8 +208,18 @@ def E(n):
     return {'name': n}
 
 
-def chain(hid0, stop_action, where, code_unused=None, gen_stop=False, after=2, stopped_fires=True, length=4):
-    """started -> a0 -> a1 -> ... ; `where` = -1 for the started handler, k for handler of a_k."""
+def chain(hid0, stop_action, where, code_unused=None, gen_stop=False, after=2, stopped_fires=True, length=4, childstop=()):
+    """started -> a0 -> a1 -> ... ; `where` = -1 for the started handler, k for handler of a_k.
+    childstop: (position, code) pairs - the handler at that position first calls stop(code) of a registered child component."""
+    hs = _chain(hid0, stop_action, where, gen_stop, after, stopped_fires, length)
+    for pos, code in childstop:
+        h = hs[pos + 1] if -1 <= pos < length else hs[0]
+        at = 1 if h['gen'] else 0
+        h['body'] = h['body'][:at] + [['stopchild', code]] + h['body'][at:]
+    return hs
+
+
+def _chain(hid0, stop_action, where, gen_stop, after, stopped_fires, length):
     hs = []
     body = [['fire', E('a0')], ['fire', E('x')]]
     if where == -1:
@@ -237,6 +254,10 @@ def corpus():
         cs.append({'name': 'genstop-%r' % (code,), 'handlers': chain(1, ['stopmgr', code], 1, gen_stop=True), 'cycles': [{}, {'pre_fires': [E('x')]}]})
         cs.append({'name': 'sysexit-%r' % (code,), 'handlers': chain(1, ['sysexit', code], 1), 'cycles': [{'pre_fires': [E('x')]}, {}]})
         cs.append({'name': 'sysexit-started-%r' % (code,), 'handlers': chain(1, ['sysexit', code], -1), 'cycles': [{}]})
+    for code in (None, 3):
+        cs.append({'name': 'childstop-%r-before-stop' % (code,), 'handlers': chain(1, ['stopmgr', None], 2, childstop=[(0, code)]), 'cycles': [{'pre_fires': [E('x')]}, {}]})
+        cs.append({'name': 'childstop-%r-in-started-and-gen' % (code,), 'handlers': chain(1, ['stopmgr', 3], 1, gen_stop=True, childstop=[(-1, code), (1, code)]), 'cycles': [{}, {}]})
+        cs.append({'name': 'childstop-%r-after-stop' % (code,), 'handlers': chain(1, ['stopmgr', None], 0, childstop=[(2, code)]), 'cycles': [{}]})
     cs.append({'name': 'kbint', 'handlers': chain(1, ['kbint'], 2), 'cycles': [{}, {}, {}]})
     cs.append({'name': 'kbint-gen', 'handlers': chain(1, ['kbint'], 0, gen_stop=True), 'cycles': [{}, {}]})
     cs.append({'name': 'thread', 'handlers': chain(1, ['fire', E('release_stopper')], 1), 'cycles': [{'thread_stop': True}, {'thread_stop': True, 'pre_fires': [E('x')]}]})
@@ -258,7 +279,8 @@ def gen_case(rng):
     else:
         act = ['fire', E('release_stopper')]
         gen_stop = False
-    hs = chain(1, act, where, gen_stop=gen_stop, after=rng.randint(0, 3), stopped_fires=rng.random() < 0.7, length=length)
+    childstop = [(rng.randint(-1, length - 1), rng.choice([None, None, 0, 3])) for _ in range(rng.choice([0, 0, 0, 1, 1, 2]))]
+    hs = chain(1, act, where, gen_stop=gen_stop, after=rng.randint(0, 3), stopped_fires=rng.random() < 0.7, length=length, childstop=childstop)
     # some extra handlers with priorities / second handlers
     if rng.random() < 0.5:
         hs.append(HD(40, 'x', [['fire', E('y')]] * rng.randint(0, 2), prio=1))
